@@ -14,6 +14,7 @@ import (
 func init() {
 	vReg("H_C01_bind", H_C01_bind)
 	vReg("H_C01_search", H_C01_search)
+	vReg("H_C01_searchfilter", H_C01_searchfilter)
 	vReg("H_C01_modify", H_C01_modify)
 	vReg("H_C01_modify2", H_C01_modify2)
 	vReg("H_C01_add", H_C01_add)
@@ -344,21 +345,51 @@ func H_C01_bind() {
 	vReach("bind ok")
 }
 
-func H_C01_search() {
+func H_C01_search() { vSearch(false) }
+
+// the filter dimension on its own: no attributes, no controls
+func H_C01_searchfilter() { vSearch(true) }
+
+func vSearch(filterKinds bool) {
 	id, base := vID(), vStr("base")
 	scope, deref := vI64("scope"), vI64("deref")
 	size, tl := vI64("size"), vI64("time")
 	vAssume(scope >= 0 && scope <= 2 && deref >= 0 && deref <= 3)
 	vAssume(size >= 0 && size < 1<<31 && tl >= 0 && tl < 1<<31)
 	typesOnly := vBool("typesOnly")
-	na := vLen("nattrs", 3)
+	na := 0
+	var cs []ctlSpec
+	if !filterKinds {
+		na = vLen("nattrs", 3)
+		cs = vControls(vMaxCtl)
+	}
 	attrs := []string{vStr("a0"), vStr("a1"), vStr("a2")}[:na]
-	cs := vControls(vMaxCtl)
 	as := refSeq()
 	for _, a := range attrs {
 		as.AppendChild(refOctet(a))
 	}
-	filter := refCtxPrim(7, "objectClass")
+	// the filter: a present filter, or an attribute-value assertion (=, >=, <=, ~=)
+	// whose value is 1..2 arbitrary bytes (specials, NUL and bytes >= 0x80 included);
+	// what the handler must see is go-ldap's text of exactly this filter
+	var filter *ber.Packet
+	fk := 0
+	if filterKinds {
+		fk = vLen("filterKind", 4)
+	}
+	if fk == 0 {
+		filter = refCtxPrim(7, "objectClass")
+	} else {
+		b0, b1 := vU64("fv0"), vU64("fv1")
+		vAssume(b0 < 256 && b1 < 256)
+		val := string([]byte{byte(b0)})
+		if vBool("fvTwoBytes") {
+			val = string([]byte{byte(b0), byte(b1)})
+		}
+		tag := []ber.Tag{0, 3, 5, 6, 8}[fk]
+		filter = ber.Encode(ber.ClassContext, ber.TypeConstructed, tag, nil, "")
+		filter.AppendChild(refOctet("cn"))
+		filter.AppendChild(refOctet(val))
+	}
 	op := refApp(ApplicationSearchRequest, refOctet(base), refEnum(scope), refEnum(deref), refInt(size), refInt(tl), refBool(typesOnly), filter, as)
 	w := vWire(refEnvelope(id, op, refControls(cs)))
 	wantFilter, ferr := ldap.DecompileFilter(w.Children[1].Children[6])
